@@ -25,4 +25,17 @@ CHECKS = {
                         "ranks for every key. MutableTree.Rollback(), DeleteVersion(s) and IterateRangeInclusive are not exercised: no non-test caller "
                         "in this fork uses them (pruning is commented out in iavl.Store.Commit); rollback is exercised the way rootmulti.RollbackVersion "
                         "does it (fresh tree, LoadVersion, LoadVersionForOverwriting)."),
+    "C05": c("storea", "TestC05", dict(checks=600, timeout=400), dict(checks=3000, shards=14, timeout=1500),
+             technique="property-based testing of rootmulti/IAVL query proofs: completeness against harness-recorded commit hashes and a map model, "
+                       "soundness by exhaustive structured single-field alteration of the decoded proof ops plus adversarial constructions",
+             design_ref="DESIGN.md §7 C05",
+             level_text="Generated multistore histories (1-3 IAVL stores, 2-5 versions, 0-40 keys per store, variable-length keys); for a drawn (version, store) "
+                        "every present key and every derived absent key is queried with proof and verified; for 4 drawn proofs per case every single-field "
+                        "alteration of every leaf, inner node, store info, plus altered root/key/value/kind and replay for other keys/stores must be rejected. "
+                        "Exploration only: bounded tree sizes and key alphabet; alterations are single-field (plus two fixed multi-field forgeries), "
+                        "not arbitrary adversarial proofs.",
+             level_note="Trusts tendermint's merkle.ProofRuntime/SimpleHashFromMap, amino (de)serialisation, SHA-256 collision resistance, rapid and the map model. "
+                        "Versions >= 2 only (baseapp refuses proofs at height <= 1). The substore CommitID.Version inside a multistore StoreInfo is not "
+                        "hashed by design (StoreInfo.Hash covers the IAVL root hash only) and is therefore not altered. Dropping a redundant second leaf "
+                        "together with its path yields another honest proof and is not treated as an alteration."),
 }
